@@ -358,7 +358,18 @@ def impl_hist(ops):
             if k == "B":
                 return fbool(classes[f[1]].is_subclass(classes[f[2]]))
             if k == "K":
-                return "/".join(fseqs(sorted(tuple(p) for p in lv)) for lv in classes[f[1]].cache)
+                # introspection of the level cache.  HOW FAR the cache extends after a history is the implementation's
+                # business (a fast path may answer without building a level): what is compared with the model is that
+                # every level that IS there is right - level i holds permutations of length i, no repetition, members
+                # only, and (i <= 7) all of them
+                member = members[f[1]]
+                ok = True
+                for i, lv in enumerate(classes[f[1]].cache):
+                    keys = [tuple(p) for p in lv]
+                    ok = ok and len(set(keys)) == len(keys) and all(len(q) == i and member(q) for q in keys)
+                    if ok and i <= 7:
+                        ok = len(keys) == sum(1 for q in itertools.permutations(range(i)) if member(q))
+                return "K!" + fbool(ok)
             if k == "O":
                 av = classes[f[2]]
                 arg = int(f[4])
